@@ -642,6 +642,11 @@ def Table.NoNestedSuffix : Table → Prop
   | .agnostic r => Pxv.Matchit.NoNestedSuffix r.rset
   | .domains ds _ => Pxv.Matchit.NoNestedSuffix (domRset ds) ∧ ∀ d ∈ ds, Pxv.Matchit.NoNestedSuffix d.router.rset
 
+/-- Decision procedure for `Table.NoNestedSuffix`. -/
+def Table.noNestedSuffixB : Table → Bool
+  | .agnostic r => Pxv.Matchit.noNestedSuffixB r.rset
+  | .domains ds _ => Pxv.Matchit.noNestedSuffixB (domRset ds) && ds.all (fun d => Pxv.Matchit.noNestedSuffixB d.router.rset)
+
 /-! ## `runtime/pavex/src/router` -/
 
 /-- `MethodAllowList::allow_header_value`. -/
